@@ -127,6 +127,30 @@ def t_sent_is_last_built(ev, outcome, exc):
     return True
 
 
+def t_oversize_iff(ev, outcome, exc, path):
+    """The first encoding is replaced by the too-large error exactly when it is longer than the
+    maximum response size the client asked for (1 MiB when it asked for none)."""
+    import z3
+    if outcome != 'return':
+        return True
+    writes = [e for e in ev if e[0] == 'response.write']
+    if not writes:
+        return "nothing encoded"
+    mx = [e for e in ev if e[0] == 'engine.max']
+    if mx:
+        nomax, m = mx[-1][1], mx[-1][2]
+        limit = z3.If(nomax, z3.IntVal(1048576), m)
+    else:
+        limit = z3.IntVal(1048576)
+    too_long = z3.Length(writes[0][3]) > limit
+    replaced = len(writes) == 2
+    if replaced and not path.is_valid(too_long):
+        return "response replaced by the too-large error although it fits"
+    if not replaced and not path.is_valid(z3.Not(too_long)):
+        return "oversized response sent as is"
+    return True
+
+
 def t_only_framing_raises(ev, outcome, exc):
     if outcome != 'raise':
         return True
@@ -143,6 +167,7 @@ c.trace("engine-only-after-decode-and-authentication", t_engine_guarded)
 c.trace("failures-answered-with-the-right-error", t_failures_answered)
 c.trace("oversize-replaced-by-too-large-error", t_sent_is_last_built)
 c.trace("nothing-escapes-after-framing", t_only_framing_raises)
+c.trace("too-large-error-iff-over-the-requested-maximum", t_oversize_iff)
 c.modifies("self._connection.remaining", "self._connection.sent")
 c.allow_external()
 
